@@ -1,0 +1,11 @@
+//go:build verif
+
+// Contracts for package lazyregexp, read by /verif/engine (govc).  Comment-only:
+// with the verif tag on, this file adds no code; with it off, it is not compiled.
+
+package lazyregexp
+
+//@ func (*Regexp).MatchString
+//@   pure
+//@   trusted "delegates to (*regexp.Regexp).MatchString of the lazily compiled pattern: a function of the Regexp object and the string; what it computes for a given pattern is stated where the pattern is declared"
+//@   props C18
